@@ -244,3 +244,13 @@ func DecodeOne(k string, data []byte) MetaObj {
 	}
 	return o
 }
+
+// DownloadFile publishes one file of a bundle into a fresh in-memory directory.
+func (w *World) DownloadFile(repo, id, file string) ([]File, error) {
+	dst := Consumable(nil)
+	b := core.NewBundle(core.Repo(repo), core.ContextStores(w.Stores()), core.BundleID(id), core.ConsumableStore(dst), core.Logger(Nop))
+	if err := core.PublishFile(context.Background(), b, file); err != nil {
+		return nil, err
+	}
+	return ReadAll(dst)
+}
